@@ -38,16 +38,17 @@ func c18ip(i int) string   { return fmt.Sprintf("10.0.0.%d", i+1) }
 func c18addr(i int) string { return "tcp://" + c18ip(i) + ":9502" }
 
 type c18Cluster struct {
-	c         *controller.Controller
-	nodes     []*eb.ModelNode
-	bes       map[int]*remote.Remote // latest backend per node
-	gateOn    bool                   // reference runs: AddReplica stops after factory.Create until released
-	gateRel   bool
-	gated     bool
-	notes     []string
-	rf        int
-	q         *c03Quorum   // C03conc: oracle evaluated when a mutating data call reaches a replica (nil otherwise)
-	failReads map[int]bool // op RF: reads fail on these nodes (the replicas that were RW when the cluster was built)
+	c          *controller.Controller
+	nodes      []*eb.ModelNode
+	bes        map[int]*remote.Remote // latest backend per node
+	gateOn     bool                   // reference runs: AddReplica stops after factory.Create until released
+	gateRel    bool
+	gated      bool
+	notes      []string
+	rf         int
+	q          *c03Quorum   // C03conc: oracle evaluated when a mutating data call reaches a replica (nil otherwise)
+	failWrites map[int]int  // op WF<i>: payload byte -> node+1 on which that write fails
+	failReads  map[int]bool // op RF: reads fail on these nodes (the replicas that were RW when the cluster was built)
 }
 
 var c18cur *c18Cluster
@@ -74,6 +75,9 @@ type c18IOs struct {
 }
 
 func (x c18IOs) WriteAt(b []byte, off int64) (int, error) {
+	if len(b) > 0 && x.cl.failWrites[int(b[0])] == x.node+1 {
+		return 0, fmt.Errorf("injected write failure on node %d", x.node+1)
+	}
 	if q := x.cl.q; q != nil {
 		if err := q.reach(x.cl, x.node, "W", int(b[0]), off); err != nil {
 			return 0, err
@@ -293,6 +297,16 @@ func (cl *c18Cluster) op(name string) string {
 	case name == "W0" || name == "W1":
 		k := idx()
 		n, err := c.WriteAt(c18Block(k+1), int64(k)*eb.Block)
+		return fmt.Sprintf("%s:n=%d,%s", name, n, e(err))
+	case strings.HasPrefix(name, "WF"):
+		// a write of block 1 whose data call fails on node <i> (the failure belongs to this write only: it is keyed by
+		// the payload)
+		b := c18Block(5)
+		if cl.failWrites == nil {
+			cl.failWrites = map[int]int{}
+		}
+		cl.failWrites[int(b[0])] = idx() + 1
+		n, err := c.WriteAt(b, eb.Block)
 		return fmt.Sprintf("%s:n=%d,%s", name, n, e(err))
 	case name == "R":
 		buf := make([]byte, eb.Block)
@@ -626,3 +640,27 @@ func c04Configs(tier string) []C18Cfg {
 }
 
 func checkC04() int { return checkSimple("C04", "C04conc", "C04-conc.part") }
+
+// c02Configs: writes (also with one replica failing the write) against membership changes (part C02conc of C02): in every
+// interleaving the write's result and the final membership / node contents are those of some sequential order - so a
+// replica that failed the write is the one detached, and a replica attached meanwhile does not silently miss the write.
+func c02Configs(tier string) []C18Cfg {
+	var out []C18Cfg
+	add := func(init string, ops ...string) { out = append(out, C18Cfg{Name: "write", Init: init, Ops: ops}) }
+	for _, p := range [][]string{{"WF1", "Err2"}, {"WF1", "Rm2"}, {"WF1", "Mon2"}, {"WF1", "W0"}, {"WF1", "Rm0"}, {"WF2", "Err0"}, {"W0", "Err1"}, {"WF1", "Snap"}} {
+		add("rw3", p...)
+	}
+	for _, p := range [][]string{{"W0", "Add2"}, {"WF1", "Add2"}, {"WF0", "Add2"}} {
+		add("rw2", p...)
+	}
+	for _, p := range [][]string{{"W0", "Ver2"}, {"WF1", "Ver2"}, {"WF2", "Ver2"}, {"W0", "RW2"}, {"WF1", "RW2"}, {"WF2", "Rm1"}, {"WF0", "Mon2"}} {
+		add("rw2wo", p...)
+	}
+	if tier == "thorough" {
+		add("rw3", "WF1", "Err2", "W0")
+		add("rw2wo", "WF1", "Ver2", "W0")
+	}
+	return out
+}
+
+func checkC02() int { return checkSimple("C02", "C02conc", "C02-conc.part") }
